@@ -142,7 +142,9 @@ theorem step_shape (heap heap' : Heap V) (op : Op V) (out : Out V)
   case setAttr t k v =>
     cases hd : deref heap t with
     | error e => simp [hd] at h
-    | ok d => simp only [hd] at h; cases h; exact Or.inr (Or.inl ⟨t, d, _, rfl, deref_ok hd, rfl, rfl, rfl⟩)
+    | ok d =>
+      simp only [hd] at h
+      split at h <;> cases h <;> exact Or.inr (Or.inl ⟨t, d, _, rfl, deref_ok hd, rfl, rfl, rfl⟩)
   case delItem t k =>
     cases hd : deref heap t with
     | error e => simp [hd] at h
@@ -285,7 +287,11 @@ theorem step_keys_nodup [LawfulTreeAdd V] (heap heap' : Heap V) (op : Op V) (out
   case setAttr t k v =>
     cases hd : deref heap t with
     | error e => simp [hd] at h
-    | ok d => simp only [hd] at h; cases h; exact hset t _ (set_keys_nodup k v d.items (hget t d hd))
+    | ok d =>
+      simp only [hd] at h
+      split at h <;> cases h
+      · exact hset t _ (hget t d hd)
+      · exact hset t _ (set_keys_nodup k v d.items (hget t d hd))
   case delItem t k =>
     cases hd : deref heap t with
     | error e => simp [hd] at h
